@@ -366,7 +366,8 @@ class Ctx:
         self.seed = seed
         self.rng = random.Random((seed * 1000003) ^ hash_str(prop))
         self.model = Model()
-        self.t0 = time.time()
+        self.t0 = time.time()        # reset by the runner when the correspondence starts (budget clock)
+        self.t_start = self.t0       # creation time (wall clock of the whole check)
         self.evaluations = 0
         self.nontrivial = set()
         self.samples = []
